@@ -479,7 +479,12 @@ class Fn:
         if op[0] == 'k':
             if op[4]:
                 return ('fnconst', norm(op[4]))
-            return ('const', op[3], op[1], op[2])
+            val = op[3]
+            if val is None and op[1].startswith('promoted = '):
+                m = re.match(r'promoted = (-?\d+)_[iu](?:\d+|size)$', op[1])
+                if m:
+                    val = int(m.group(1))
+            return ('const', val, op[1], op[2])
         return ('unknown',)
 
     def expr_of_rvalue(self, rv, depth=24):
